@@ -11,7 +11,7 @@ from .facts import find_all
 
 
 def compile_fn(facts):
-    comp = facts.fns.get("scheme::compile")
+    comp = F.api_fn(facts, "compile") or facts.fns.get("scheme::compile")
     if comp is None:
         for k, fn in facts.fns.items():
             if fn.name == "compile" and fn.impl is None and not fn.test and fn.node["vis"] == "pub":
